@@ -290,6 +290,109 @@ theorem inflight_complete (id : Nat) (decl : Option Nat) (tr : Bool) (hodd : id 
           rw [hsum]
           exact List.mem_append_right _ this
 
+/-- the HEADERS of a new request on a connection that has not sent a GOAWAY open the stream -/
+theorem open_step (c : Conn) (id : Nat) (decl : Option Nat) (hd : c.dead = false) (hg : c.inGoAway = false)
+    (hodd : id % 2 = 1) (hnone : getS c id = none) (hmax : c.maxId < id) :
+    step c (.headers id false decl) = ({ setS c id ⟨id, false, 0, decl, false⟩ with maxId := id }, []) := by
+  have hst := headersStale_of_lt id c.maxId hmax
+  simp [step, stepWith, hd, hg, headersIgnored_noGoAway, hodd, hnone, hst]
+
+theorem body_other (id : Nat) (tr : Bool) : ∀ (l : List Nat), ∀ e ∈ bodyFrames id tr l, Ev.other id e = false := by
+  intro l
+  induction l with
+  | nil =>
+    intro e he
+    cases tr <;> simp [bodyFrames] at he
+    subst he; simp [Ev.other]
+  | cons a r ih =>
+    intro e he
+    simp only [bodyFrames, List.mem_cons] at he
+    rcases he with he | he
+    · subst he; simp [Ev.other]
+    · exact ih e he
+
+theorem shutdown_dead (c : Conn) : (step c .shutdown).1.dead = c.dead := by
+  simp only [step, stepWith]
+  split
+  · rfl
+  · exact goAway_dead c gracefulCode
+
+/-- shutdowns alone never close the connection -/
+theorem run_shutdowns_alive (evs : List Ev) : ∀ (c : Conn), c.dead = false → (∀ e ∈ evs, e = Ev.shutdown) →
+    (run c evs).1.dead = false := by
+  induction evs with
+  | nil => intro c h _; exact h
+  | cons e t ih =>
+    intro c h hall
+    rw [run_cons]
+    have he := hall e (List.mem_cons_self ..)
+    subst he
+    exact ih _ (by rw [shutdown_dead]; exact h) (fun x hx => hall x (List.mem_cons_of_mem _ hx))
+
+theorem trailers_alive (c : Conn) (id k : Nat) (decl : Option Nat) (hodd : id % 2 = 1)
+    (hk : Keeps c id ⟨id, false, k, decl, false⟩) : (step c (.headers id true none)).1.dead = false := by
+  obtain ⟨h1, h2, h3, h4⟩ := hk
+  have hni := headersIgnored_inflight c.inGoAway c.code id c.maxId h4 h3
+  simp [step, stepWith, h1, hni, hodd, h2, setS]
+
+/-- a connection that carries only this request and shutdowns is never closed -/
+theorem alone_alive (id : Nat) (decl : Option Nat) (tr : Bool) (hodd : id % 2 = 1) :
+    ∀ (evs : List Ev) (chunks : List Nat) (c : Conn) (k : Nat),
+      Keeps c id ⟨id, false, k, decl, false⟩ →
+      (∀ e ∈ evs, e = Ev.shutdown ∨ e.other id = false) →
+      evs.filter (fun e => !e.other id) = bodyFrames id tr chunks →
+      (∀ d, decl = some d → k + chunks.sum ≤ d) →
+      (run c evs).1.dead = false := by
+  intro evs
+  induction evs with
+  | nil => intro _ c _ hk _ _ _; exact hk.alive
+  | cons e t ih =>
+    intro chunks c k hk hall hp hdecl
+    rw [run_cons]
+    have hall' : ∀ x ∈ t, x = Ev.shutdown ∨ x.other id = false := fun x hx => hall x (List.mem_cons_of_mem _ hx)
+    rcases hall e (List.mem_cons_self ..) with he | he
+    · subst he
+      have hk' : Keeps (step c .shutdown).1 id ⟨id, false, k, decl, false⟩ :=
+        keeps_other c id _ .shutdown hk rfl (by rw [shutdown_dead]; exact hk.alive)
+      have hp' : t.filter (fun e => !e.other id) = bodyFrames id tr chunks := by
+        simpa [List.filter_cons, Ev.other] using hp
+      exact ih chunks _ k hk' hall' hp' hdecl
+    · simp only [List.filter_cons, he, Bool.not_false, if_true] at hp
+      -- after the frame that ends the stream only shutdowns can follow
+      have rest_shut : t.filter (fun e => !e.other id) = [] → ∀ x ∈ t, x = Ev.shutdown := by
+        intro hnil x hx
+        rcases hall' x hx with h | h
+        · exact h
+        · have : x ∈ t.filter (fun e => !e.other id) := List.mem_filter.2 ⟨hx, by simp [h]⟩
+          rw [hnil] at this; exact absurd this (List.not_mem_nil)
+      cases chunks with
+      | nil =>
+        cases tr with
+        | false => simp [bodyFrames] at hp
+        | true =>
+          simp only [bodyFrames, if_true, List.cons.injEq] at hp
+          rw [hp.1]
+          exact run_shutdowns_alive t _ (trailers_alive c id k decl hodd hk) (rest_shut hp.2)
+      | cons a r =>
+        simp only [bodyFrames, List.cons.injEq] at hp
+        obtain ⟨hev, hp'⟩ := hp
+        have hda : ∀ d, decl = some d → k + a ≤ d := by
+          intro d hd; have := hdecl d hd; simp only [List.sum_cons] at this; omega
+        by_cases hlast : (!tr && r.isEmpty) = true
+        · simp only [Bool.and_eq_true, Bool.not_eq_true', List.isEmpty_iff] at hlast
+          obtain ⟨htr, hr⟩ := hlast
+          subst hr; subst htr
+          rw [hev]
+          simp only [Bool.not_false, List.isEmpty_nil, Bool.and_self]
+          rw [data_inflight c id k a decl true hk hda]
+          simp only [bodyFrames, Bool.false_eq_true, if_false] at hp'
+          exact run_shutdowns_alive t _ hk.alive (rest_shut hp')
+        · have hlast' : (!tr && r.isEmpty) = false := by simpa using hlast
+          rw [hlast'] at hev
+          rw [hev]
+          exact ih r _ (k + a) (keeps_data c id k a decl hk hda) hall' hp'
+            (by intro d hd; have := hdecl d hd; simp only [List.sum_cons] at this; omega)
+
 /-- a stream begun after the GOAWAY (id above the last stream id) is invisible: its HEADERS, DATA and RST_STREAM
 frames change nothing and produce nothing — in particular no connection error -/
 theorem refused_stream_step (c : Conn) (e : Ev) (j : Nat) (hg : c.inGoAway = true) (hj : c.maxId < j)
